@@ -144,4 +144,15 @@ CHECKS["C11"] = {
             "parameter values at the fixed shapes, have the parameter's shape, vanish outside a triangular parameter's triangle and are symmetric for symmetric-array parameters.",
     "note": "fixed shapes (dimension 2, rank-1 updates, 3 blocks); shim table, sympy differentiation/simplification trusted; reals for floats; numeric-only equalities are reported as bounded.",
 }
+CHECKS["C19"] = {
+    "engine": "symla + frames",
+    "technique": "contract-based verification: static write-effect / field-coverage frame obligations on matrices.py, operand-frame postconditions and lazy-attribute order independence by exact symbolic execution of the real classes, value-semantics postconditions per class",
+    "design_ref": "DESIGN.md section 7 C19",
+    "text": "Statically, all in-place statements in matrices.py write to locally allocated arrays and the sign/scalar options are covered by equality and hash; symbolically, every product, "
+            "transpose, inverse, scalar multiple and square-root application leaves the caller's arrays untouched and gives the same result whether or not factors / capacitance matrices "
+            "were cached before (derived-object obligations of all factor-caching classes); per class, constructor arrays are read-only, equal parameters compare and hash equal, a "
+            "differing defining option implies unequal objects or equal arrays, and copy / deepcopy / pickle equal the original.",
+    "note": "value-semantics clauses are exercised on numeric instances (complete over classes and listed options, sampled over values: reported as bounded); hash_array and numpy writeable "
+            "flags trusted; project_onto_cotangent_space mutating its `mom` argument is a system method and outside this property.",
+}
 NOT_APPLICABLE = {}
